@@ -120,7 +120,7 @@ struct E6 : Engine {
 			if(x == 0 && r.below(2)){ c["kind"] = "ptimer"; c["ms"] = 1 + (int)r.below(12); c["times"] = 2 + (int)r.below(5); c["cancel_after_ms"] = r.below(4) ? (int)r.below(60) : -1; }   // periodic - the handler re-arms the same timer from inside, a cancel has to stop the wait pending at that moment
 			else if(x == 0){ c["kind"] = "dtimer"; c["ms"] = (int)r.below(30); c["cancel_after_ms"] = r.below(2) ? (int)r.below(40) : -1; }
 			else if(x == 1){ c["kind"] = "read"; c["want"] = 1 + (int)r.below(3000); c["feed"] = (int)r.below(4000); c["chunk"] = 1 + (int)r.below(700); c["close_peer"] = r.below(3) == 0; c["cancel_after_ms"] = r.below(3) == 0 ? (int)r.below(20) : -1; c["close"] = (int)r.below(2); c["eof_first"] = r.below(5) == 0; }   /* eof_first (round 9): the peer has closed before async_read() is started - its first immediate attempt already ends with eof */
-			else { c["kind"] = "write"; c["len"] = 1 + (int)r.below(20000); c["cap"] = 1 + (int)r.below(3000); c["drain"] = 1 + (int)r.below(2000); c["cancel_after_ms"] = r.below(4) == 0 ? (int)r.below(20) : -1; c["close"] = (int)r.below(2); c["gone_first"] = r.below(6) == 0; }   /* gone_first (round 9): the peer has closed before async_write() is started - its first immediate attempt already fails */
+			else { c["kind"] = "write"; c["len"] = 1 + (int)r.below(20000); c["cap"] = 1 + (int)r.below(3000); c["drain"] = 1 + (int)r.below(2000); c["cancel_after_ms"] = r.below(4) == 0 ? (int)r.below(20) : -1; c["close"] = (int)r.below(2); c["gone_first"] = r.below(6) == 0; c["close_mid"] = r.below(4) == 0 ? (int)r.below(6000) : -1; }   /* gone_first (round 9): the peer has closed before async_write() is started - its first immediate attempt already fails */
 			ch.push(c); }
 		p["chains"] = ch;
 		p["p_inprogress"] = r.below(3) ? 700 : 0;
@@ -177,7 +177,7 @@ struct E6 : Engine {
 	}
 
 	// ---------------------------------------------------------------- event loop
-	struct Chain { std::unique_ptr<aio::acceptor> acc; std::vector<std::unique_ptr<aio::stream_socket>> accepted; std::vector<int> acc_hids; int port = 0, conns = 0, conns_made = 0, conn_gap_ms = 0, lfd = -1, listen_mode = 0, got = 0; bool acc_closed = false; /* accept / connect chains */ int period_ms = 0, times_left = 0, cur_hid = -1; bool close_instead = false, closed = false; std::string kind; std::unique_ptr<aio::stream_socket> sock; std::unique_ptr<aio::deadline_timer> timer, canceler; int hid = -1; int peer = -1; std::string buf; std::string sent; size_t fed = 0, feed = 0, chunk = 1, drain = 1; bool close_peer = false; std::string drained; int cancel_after = -1; bool peer_closed = false; };
+	struct Chain { int64_t close_mid = -1; /* write chains: the peer closes once it has drained this many bytes */ std::unique_ptr<aio::acceptor> acc; std::vector<std::unique_ptr<aio::stream_socket>> accepted; std::vector<int> acc_hids; int port = 0, conns = 0, conns_made = 0, conn_gap_ms = 0, lfd = -1, listen_mode = 0, got = 0; bool acc_closed = false; /* accept / connect chains */ int period_ms = 0, times_left = 0, cur_hid = -1; bool close_instead = false, closed = false; std::string kind; std::unique_ptr<aio::stream_socket> sock; std::unique_ptr<aio::deadline_timer> timer, canceler; int hid = -1; int peer = -1; std::string buf; std::string sent; size_t fed = 0, feed = 0, chunk = 1, drain = 1; bool close_peer = false; std::string drained; int cancel_after = -1; bool peer_closed = false; };
 
 	void run_loop(const J &plan,RunResult &res,World &w){
 		int rt = (int)(((plan.geti("reactor") % 3) + 3) % 3); int reactor_type = rt == 0 ? aio::reactor::use_epoll : rt == 1 ? aio::reactor::use_poll : aio::reactor::use_select;
@@ -244,7 +244,7 @@ struct E6 : Engine {
 						if(c.geti("eof_first")){ ::close(ch->peer); ch->peer = -1; ch->peer_closed = true; ch->feed = 0; ch->close_peer = false; res.counters["aread_peer_closed_first"] = res.counters.geti("aread_peer_closed_first") + 1; }
 						ch->hid = w.add("aread"); w.h[ch->hid].want = want;
 						srv.post([cp]{ cp->sock->async_read(aio::buffer(&cp->buf[0],cp->buf.size()),Fn(cp->hid)); }); }
-					else { size_t len = (size_t)std::max<int64_t>(1,std::min<int64_t>(c.geti("len",1),400000)); ch->buf.resize(len); for(size_t j=0;j<len;j++) ch->buf[j] = (char)((j*13+i) & 0xff); ch->drain = (size_t)std::max<int64_t>(1,c.geti("drain",1));
+					else { size_t len = (size_t)std::max<int64_t>(1,std::min<int64_t>(c.geti("len",1),400000)); ch->buf.resize(len); for(size_t j=0;j<len;j++) ch->buf[j] = (char)((j*13+i) & 0xff); ch->drain = (size_t)std::max<int64_t>(1,c.geti("drain",1)); ch->close_mid = c.geti("close_mid",-1);
 						if(c.geti("gone_first")){ ::close(ch->peer); ch->peer = -1; ch->peer_closed = true; res.counters["awrite_peer_closed_first"] = res.counters.geti("awrite_peer_closed_first") + 1; }
 						ch->hid = w.add("awrite"); w.h[ch->hid].want = len;
 						srv.post([cp]{ cp->sock->async_write(aio::buffer(cp->buf.data(),cp->buf.size()),Fn(cp->hid)); }); }
@@ -269,7 +269,7 @@ struct E6 : Engine {
 					for(auto &ch:chains){ if(ch->peer < 0 || ch->peer_closed) continue; HRec &hr = w.h[ch->hid];
 						if(ch->kind == "read"){ if(ch->fed < ch->feed){ size_t k = std::min(ch->chunk,ch->feed - ch->fed); std::string piece(k,'\0'); for(size_t j=0;j<k;j++) piece[j] = (char)(((ch->fed+j)*7+3) & 0xff); ssize_t n = ::write(ch->peer,piece.data(),k); if(n > 0){ ch->sent.append(piece.data(),n); ch->fed += n; } active = true; }
 							else if(ch->close_peer){ ::close(ch->peer); ch->peer_closed = true; } }
-						else { char b[4096]; ssize_t n = ::read(ch->peer,b,std::min(sizeof(b),ch->drain)); if(n > 0){ ch->drained.append(b,n); active = true; } else if(hr.count == 0) active = true; } }
+						else { char b[4096]; ssize_t n = ::read(ch->peer,b,std::min(sizeof(b),ch->drain)); if(n > 0){ ch->drained.append(b,n); active = true; } else if(hr.count == 0) active = true; if(ch->close_mid >= 0 && (int64_t)ch->drained.size() >= ch->close_mid && hr.count == 0){ ::close(ch->peer); ch->peer_closed = true; res.counters["awrite_peer_closed_mid_drain"] = res.counters.geti("awrite_peer_closed_mid_drain") + 1; active = true; } } }
 					if(!active) break; simk::sleep_us(300); } });
 			std::vector<std::thread> thr;
 			for(size_t t=0;t<nt;t++) thr.emplace_back([&,t]{
